@@ -187,17 +187,21 @@ func (a *WALBatchApplier) ApplyEntries(entries []*replication_proto.WALEntry, ap
 			a.expectedNextSeq, firstSeq)
 	}
 
+	// Verify the whole message before applying any of it, so that a message is applied
+	// completely or not at all. The entries of one WAL batch (a transaction) share a
+	// sequence number, so each step inside a message is +0 or +1.
+	for i := 1; i < len(entries); i++ {
+		prev, cur := entries[i-1].SequenceNumber, entries[i].SequenceNumber
+		if cur != prev && cur != prev+1 {
+			// Gap within the batch
+			hasGap = true
+			return a.maxAppliedSeq, hasGap, fmt.Errorf("sequence gap within batch: %d -> %d", prev, cur)
+		}
+	}
+
 	// Process entries in order
 	var lastAppliedSeq uint64
 	for i, protoEntry := range entries {
-		// Verify entries are in sequence
-		if i > 0 && protoEntry.SequenceNumber != entries[i-1].SequenceNumber+1 {
-			// Gap within the batch
-			hasGap = true
-			return a.maxAppliedSeq, hasGap, fmt.Errorf("sequence gap within batch: %d -> %d",
-				entries[i-1].SequenceNumber, protoEntry.SequenceNumber)
-		}
-
 		// Deserialize and apply the entry
 		entry, err := DeserializeWALEntry(protoEntry.Payload)
 		if err != nil {
